@@ -1,4 +1,4 @@
 SPECIFICATION ASpec
 CONSTANT EMIT = TRUE
-INVARIANTS AcceptSane EmitA
+INVARIANTS AcceptSane EmitA RetCoverage
 CHECK_DEADLOCK FALSE
